@@ -74,16 +74,20 @@ def check_site_api(res, spec, rng, lines, pend):
         joined = site.multiply_op_names(w)
         if joined != ' '.join(w):
             fail('multiply_op_names', f'{w} -> {joined!r}')
-        if not np.all(np.abs(dense(site, joined) - ref) <= TOL):
+        # products of up to 4 operators with entries up to ~Nmax^2 reach 1e4..1e5: floating-point products taken in
+        # a different association order differ by ~1e-16 RELATIVE, so the bound scales with the magnitude of the product
+        # (false alarm met in the thorough tier: BosonSite(Nmax=7) 'B dNdN dNdN dN', entries 3e4, difference 3.6e-12)
+        ptol = TOL * max(1.0, float(np.abs(ref).max()))
+        if not np.all(np.abs(dense(site, joined) - ref) <= ptol):
             fail('get_op.product', f'get_op({joined!r}) is not the matrix product')
         mixed = [site.get_op(n) if rng.random() < 0.5 else n for n in w]
-        if not np.all(np.abs(site.multiply_operators(mixed).to_ndarray() - ref) <= TOL):
+        if not np.all(np.abs(site.multiply_operators(mixed).to_ndarray() - ref) <= ptol):
             fail('multiply_operators', f'{w} (names and arrays mixed) is not the matrix product')
         if not site.valid_opname(joined):
             fail('valid_opname', f'{joined!r} reported invalid')
         if all(n in site.hc_ops for n in w):
             hc = site.get_hc_op_name(joined)
-            if hc != ' '.join(site.hc_ops[n] for n in reversed(w)) or not np.all(np.abs(dense(site, hc) - ref.conj().T) <= TOL):
+            if hc != ' '.join(site.hc_ops[n] for n in reversed(w)) or not np.all(np.abs(dense(site, hc) - ref.conj().T) <= ptol):
                 fail('get_hc_op_name.product', f'hc of {joined!r} is {hc!r}: not the adjoint')
         odd = sum(n in site.need_JW_string for n in w) % 2 == 1
         if site.op_needs_JW(joined) != odd:
@@ -106,12 +110,13 @@ def check_site_api(res, spec, rng, lines, pend):
     a, b = rng.choice(names), rng.choice(names)
     prod_orig = cc.unpermuted(site, a) @ cc.unpermuted(site, b)       # in the original basis order
     prod_here = D[a] @ D[b]
+    ptol2 = TOL * max(1.0, float(np.abs(prod_here).max()))   # rounding of products scales with their magnitude
     try:
         s2.add_op('NewProd', prod_orig)                                # permute_dense default = used_sort_charge
-        if not np.all(np.abs(dense(s2, 'NewProd') - prod_here) <= TOL):
+        if not np.all(np.abs(dense(s2, 'NewProd') - prod_here) <= ptol2):
             fail('add_op.permute_dense', f'operator {a}·{b} added as dense array (original order) is not {a}·{b}')
         s2.add_op('NewProd2', prod_here, permute_dense=False)
-        if not np.all(np.abs(dense(s2, 'NewProd2') - prod_here) <= TOL):
+        if not np.all(np.abs(dense(s2, 'NewProd2') - prod_here) <= ptol2):
             fail('add_op.permute_dense', 'permute_dense=False must take the array as it is')
         herm = np.all(np.abs(prod_here - prod_here.conj().T) <= TOL)
         if herm and s2.hc_ops.get('NewProd') != 'NewProd':
@@ -120,7 +125,7 @@ def check_site_api(res, spec, rng, lines, pend):
             s2.add_op('NewProdHc', s2.get_op('NewProd').conj().transpose())
             got = (s2.hc_ops.get('NewProdHc'), s2.hc_ops.get('NewProd'))
             # an operator equal to an existing one may be found first: accept any partner with the right matrix
-            ok = got[0] is not None and np.all(np.abs(dense(s2, got[0]) - prod_here) <= TOL)
+            ok = got[0] is not None and np.all(np.abs(dense(s2, got[0]) - prod_here) <= ptol2)
             if not ok:
                 fail('add_op.hc', f'adjoint pair not detected: {got}')
         s2.add_op('OddOp', s2.get_op('Id'), need_JW=True, hc='OddOp')
